@@ -38,6 +38,28 @@ PROPS["C16"] = dict(
     ],
 )
 
+PROPS["C09"] = dict(
+    units=[dict(name="c09", src="props/c09.cpp", enum=True, fuzz=dict(seconds=60))],
+    rule="case = numeric type x weight vector (1..64 channels; uniform / ones / dyadic / arbitrary / ratios 10^+-12 / "
+         "one positive / increasing; zeros at front, end, middle or by mask; scaled) probed with canonical values "
+         "forced through a scripted 64-bit engine: 0, largest below 1, every cumulative boundary +-2 ulp, random "
+         "values, optionally a midpoint lattice of 2^10..2^16 values, real engines, and multi_channel_iteration; "
+         "non-trivial: >= 2 positive weights (boundaries are always probed) ; distinct = distinct type + weight vector "
+         "+ lattice size; inner_evaluations counts single selections",
+    quick=dict(shards=8, cases=1500),
+    thorough=dict(shards=16, cases=60000),
+    floors={"has-zero-weight": 0.2, "zero-first": 0.05, "zero-last": 0.05, "lattice": 0.05, "in-iteration": 0.1},
+    level_text="generated weight vectors x forced canonical numbers (every cumulative boundary and its floating-point "
+               "neighbours, 0, largest value below 1, midpoint lattices) judged by an exact validity predicate "
+               "(index < n, weight > 0) and a long-double interval model with tolerance 4 n eps; frequencies over a "
+               "lattice must equal the weights within (2 + 8 n eps M)/M; exploration over generated inputs",
+    level_note="trusted: the long double interval model and the scripted engine (std::generate_canonical of libstdc++ "
+               "on a 2^64-range URBG is exact for payloads with <= 64 bits); at an exact boundary either adjacent "
+               "enabled channel is accepted",
+    technique="rapidcheck + bounded enumeration + libFuzzer over choice tapes; scripted-engine boundary forcing; interval model oracle",
+    assumptions=ASSUME_COMMON + ["canonical numbers are in [0,1) as libstdc++ guarantees (it clamps 1.0)"],
+)
+
 NOT_APPLICABLE = {}
 
 ENGINES = [
